@@ -5,30 +5,36 @@ ID=$1; WT=$2; OUT=$3; PKG=$4; SUF=${5:-}; shift 5
 CHECKS=${@:-$ID}
 export GOFLAGS=-mod=mod GOPROXY=off GOSUMDB=off
 cd $WT || exit 2
-DEMO=$(git status --short | grep '^??' | awk '{print $2}' | grep _test.go | head -1)
-TESTS=$(grep -h '^func Test' $DEMO | sed 's/func \(Test[A-Za-z0-9_]*\).*/\1/' | paste -sd'|')
-echo "== $ID$SUF demo=$DEMO tests=$TESTS"
+DEMOS=$(git status --short | grep '^??' | awk '{print $2}' | grep _test.go)
+echo "== $ID$SUF demos=$(echo $DEMOS)"
 git diff > /tmp/seedcheck-$ID.diff
 if [ -f $OUT/patch.diff ] && ! diff -q <(grep '^[+-]' $OUT/patch.diff | grep -v '^index') <(grep '^[+-]' /tmp/seedcheck-$ID.diff | grep -v '^index') >/dev/null; then echo "!! worktree diff differs from the agent's patch.diff"; fi
-echo "-- existing tests with the change (demo moved aside)"
-mv $DEMO /tmp/seedcheck-demo.go
-go test -count=1 -vet=off -tags unit ./$PKG/... 2>&1 | tail -3
-go test -count=1 -vet=off ./$PKG/... 2>&1 | tail -3
-mv /tmp/seedcheck-demo.go $DEMO
-echo "-- demo WITH change (expect FAIL)"
-go test -count=1 -vet=off -tags unit -run "$TESTS" ./$(dirname $DEMO)/ 2>&1 | tail -3
-echo "-- demo WITHOUT change (expect ok)"
+echo "-- existing tests with the change (demos moved aside): whole module, with and without the unit tag"
+mkdir -p /tmp/seedcheck-demos-$ID; for d in $DEMOS; do mv $d /tmp/seedcheck-demos-$ID/$(echo $d | tr / %); done
+go test -count=1 -vet=off -tags unit ./... 2>&1 | grep -v "^ok\|no test files" | tail -5
+go test -count=1 -vet=off ./... 2>&1 | grep -v "^ok\|no test files\|build failed\|^FAIL$\|WithFatalShutdown\|RateLimiterWithTicker\|WithBatcher\|^#" | tail -5
+for d in $DEMOS; do mv /tmp/seedcheck-demos-$ID/$(echo $d | tr / %) $d; done
+for DEMO in $DEMOS; do
+  TESTS=$(grep -h '^func Test' $DEMO | sed 's/func \(Test[A-Za-z0-9_]*\).*/\1/' | paste -sd'|')
+  echo "-- $DEMO WITH change (expect FAIL)"
+  go test -count=1 -vet=off -tags unit -run "$TESTS" ./$(dirname $DEMO)/ 2>&1 | tail -2
+done
 git checkout -- .   # (git stash is shared between worktrees: do not use it)
-go test -count=1 -vet=off -tags unit -run "$TESTS" ./$(dirname $DEMO)/ 2>&1 | tail -3
+for DEMO in $DEMOS; do
+  TESTS=$(grep -h '^func Test' $DEMO | sed 's/func \(Test[A-Za-z0-9_]*\).*/\1/' | paste -sd'|')
+  echo "-- $DEMO WITHOUT change (expect ok)"
+  go test -count=1 -vet=off -tags unit -run "$TESTS" ./$(dirname $DEMO)/ 2>&1 | tail -2
+done
 git apply /tmp/seedcheck-$ID.diff
 echo "-- our checks against the change"
 cd /verif
 for c in $CHECKS; do
-  VERIF_REPO=$WT ./check $c quick 2>&1 | grep -v KNOWN-FINDING | cut -c1-260 | head -6
+  VERIF_REPO=$WT ./check $c quick 2>&1 | grep -v KNOWN-FINDING | cut -c1-260 | head -8
   echo "check $c exit=${PIPESTATUS[0]}"
 done
 mkdir -p /verif/seeded/$ID$SUF
 cp /tmp/seedcheck-$ID.diff /verif/seeded/$ID$SUF/patch.diff
-cp $WT/$DEMO /verif/seeded/$ID$SUF/$(basename $DEMO)
+for DEMO in $DEMOS; do cp $WT/$DEMO /verif/seeded/$ID$SUF/$(dirname $DEMO | tr / _)__$(basename $DEMO); done
 [ -f $OUT/NOTES.md ] && cp $OUT/NOTES.md /verif/seeded/$ID$SUF/NOTES.md
-echo "demo_dir=$(dirname $DEMO)" > /verif/seeded/$ID$SUF/.demo_dir
+echo "demo_dirs=$(for d in $DEMOS; do dirname $d; done | sort -u | paste -sd,)" > /verif/seeded/$ID$SUF/.demo_dir
+rm -rf /tmp/seedcheck-demos-$ID /tmp/seedcheck-$ID.diff
